@@ -82,7 +82,7 @@ def generate(rng, tier):
             if 2 in tags:
                 yield {"fam": "infer", "tags": list(tags), "variant": 0, "pool": "huge"}
     for i in range(3000 if tier == "quick" else 40000):
-        yield {"fam": "result", "op": rng.choice(["add", "mul", "truediv", "radd", "join", "joinwide", "joinwide", "aggwide", "aggregate", "csv", "neg", "window", "scalar", "scalar", "rscalar", "tscalar", "dateadd", "dateadd", "datesub", "datecmp", "datejoin", "dateagg"]),
+        yield {"fam": "result", "op": rng.choice(["add", "mul", "truediv", "radd", "join", "joinwide", "joinwide", "aggwide", "aggexo", "aggexo", "aggregate", "csv", "neg", "window", "scalar", "scalar", "rscalar", "tscalar", "dateadd", "dateadd", "datesub", "datecmp", "datejoin", "dateagg"]),
                "a": [rng.choice([0, 1, 2, 3]) for _ in range(rng.randint(1, 5))], "seed": rng.randint(0, 10**6)}
 
 
@@ -338,6 +338,17 @@ def _result(spec):
             if not cols:
                 return {"skip": "empty join"}
             r = rng.choice(cols)
+        elif op == "aggexo":
+            # aggregates / windows over complex, Fraction and Decimal columns: a mean or a sum of such values is not a float, and the
+            # result column is typed from its values like any other
+            import fractions as _fr, decimal as _dec
+            pool = rng.choice([[1 + 2j, 2j, 3 + 0j], [_fr.Fraction(1, 3), _fr.Fraction(2, 3), _fr.Fraction(5, 7)],
+                               [_dec.Decimal("1.5"), _dec.Decimal("2.25"), _dec.Decimal("4")], [1 + 2j, 2, 0.5], [True, 2, 1 + 1j]])
+            xs = [None if c == 0 else rng.choice(pool) for c in spec["a"]] + [rng.choice(pool), rng.choice(pool)]
+            t = Table({"k": [rng.choice([1, 2]) for _ in xs], "x": xs})
+            f = rng.choice([t.aggregate, t.window])
+            fn = rng.choice(["sum_over", "mean_over", "count_over", "stdev_over"])
+            r = rng.choice(f(over="k", **{fn: "x"}).cols())
         elif op in ("joinwide", "aggwide"):
             # operands whose *declared* dtype is wider than the rule gives for their present values (a None sliced or masked
             # away, a None written and overwritten, to_object(), a declared nullable dtype): the result columns of joins,
